@@ -1556,7 +1556,9 @@ func inlineOne(fset *token.FileSet, site *inlineSite, read func(string) []byte) 
 			}
 			sameType := false
 			if tv, ok := info.Types[p.arg]; ok && p.obj != nil && p.text == "" && tv.Type != nil && types.Identical(tv.Type, p.obj.Type()) && !tv.IsNil() {
-				if b, isB := tv.Type.(*types.Basic); !isB || b.Info()&types.IsUntyped == 0 {
+				// go/types records the type an untyped constant argument is converted TO, so `'{'` handed to
+				// a byte parameter looks typed here: a constant argument always keeps the explicit conversion
+				if b, isB := tv.Type.(*types.Basic); (!isB || b.Info()&types.IsUntyped == 0) && tv.Value == nil {
 					sameType = true
 				}
 			}
